@@ -9,6 +9,7 @@ import multiprocessing as mp
 import os
 import random
 import traceback
+from comb_spec_searcher.exception import SpecificationNotFound
 from collections import Counter
 
 import logzero
@@ -190,7 +191,17 @@ def search(cfg):
         kw = {"perc": cfg["perc"]}
         if cfg["smallest"]:
             kw["smallest"] = True
-        spec = searcher.auto_search(**kw)
+        try:
+            spec = searcher.auto_search(**kw)
+        except SpecificationNotFound:
+            raise
+        except Exception as exc:  # noqa: BLE001
+            # did the search fail although the database holds a specification for the start class?
+            try:
+                exc.verif_found = bool(searcher.ruledb.has_specification())
+            except BaseException:  # noqa: BLE001
+                exc.verif_found = None
+            raise
     finally:
         css_mod.time = real_time
         random.setstate(st)
